@@ -317,6 +317,9 @@ func readSections(r io.Reader, d io.Writer, fh *pe.FileHeader, hvals *peHeaderVa
 		}
 		// Adjust any sections that are not properly aligned, except for the last one, as it might be truncated
 		if i < len(sections)-1 {
+			if hvals.fileAlign == 0 {
+				return nil, errors.New("PE file alignment is zero")
+			}
 			sections[i].SizeOfRawData = align32(section.SizeOfRawData, hvals.fileAlign)
 		}
 	}
